@@ -521,8 +521,15 @@ parser_primitive!(UInt16Type);
 parser_primitive!(UInt8Type);
 parser_primitive!(Int64Type);
 parser_primitive!(Int32Type);
-parser_primitive!(Int16Type);
 parser_primitive!(Int8Type);
+
+// The checked `i16` parser of atoi 3.1 lets the fifth digit of a negative number through
+// unchecked ("-32769" parses as 32767), so parse with the wider type and narrow.
+impl Parser for Int16Type {
+    fn parse(string: &str) -> Option<i16> {
+        Int32Type::parse(string).and_then(|v| i16::try_from(v).ok())
+    }
+}
 parser_primitive!(DurationNanosecondType);
 parser_primitive!(DurationMicrosecondType);
 parser_primitive!(DurationMillisecondType);
